@@ -83,6 +83,16 @@ CategoryClasses ==
    from1    |-> [dc |-> TRUE,  vals |-> <<R(1), R(2)>>],
    negative |-> [dc |-> TRUE,  vals |-> <<R(-1), R(0)>>],
    half     |-> [dc |-> TRUE,  vals |-> <<R(0), <<1, 2>>, R(1)>>],
+   \* anomalies in the INTERIOR of longer classes (first code 0 and last code n-1 are right)
+   codes4   |-> [dc |-> TRUE,  vals |-> <<R(0), R(1), R(2), R(3)>>],
+   codes5   |-> [dc |-> TRUE,  vals |-> <<R(0), R(1), R(2), R(3), R(4)>>],
+   half_in  |-> [dc |-> TRUE,  vals |-> <<R(0), <<1, 2>>, R(2)>>],
+   frac_in  |-> [dc |-> TRUE,  vals |-> <<R(0), R(1), <<5, 2>>, R(3)>>],
+   nan_in   |-> [dc |-> TRUE,  vals |-> <<R(0), NaN, R(2)>>],
+   swap_in  |-> [dc |-> TRUE,  vals |-> <<R(0), R(2), R(1), R(3)>>],
+   dup_in   |-> [dc |-> TRUE,  vals |-> <<R(0), R(1), R(1), R(3)>>],
+   skip_in  |-> [dc |-> TRUE,  vals |-> <<R(0), R(1), R(3), R(4)>>],
+   inf_end  |-> [dc |-> TRUE,  vals |-> <<R(0), R(1), PosInf>>],
    nonnum   |-> [dc |-> TRUE,  vals |-> <<R(0), NaN>>],
    missing  |-> [dc |-> TRUE,  vals |-> <<R(0), NaN>>],
    \* pseudo-fields (typing.ClassVar, dataclasses.InitVar annotations) are not fields: vals lists the fields only
